@@ -273,6 +273,8 @@ class Runner:
             while rounds < h.get("drain_rounds", 40):
                 rounds += 1
                 self.answer_all(final=rounds > 12)
+                if h.get("strict"):
+                    self.drain_inflight()        # the clock moves only when nothing is in flight
                 q = sandbox.list_queue(self.tree.root)
                 if not any(d in ("info", "todo") for d, _ in q):
                     break
